@@ -2047,7 +2047,7 @@ class SquareLowRankUpdateMatrix(InvertibleMatrix, ImplicitArrayMatrix):
             capacitance_matrix: Square matrix equal to.
 
                     inner_square_matrix.inv
-                    + right_factor_matrix @ square_matrix.inv @ left_factor_matrix
+                    + sign * right_factor_matrix @ square_matrix.inv @ left_factor_matrix
 
                 and with shape `(dim_inner, dim_inner)` which is used in constructing
                 inverse and computation of determinant of the low-rank updated matrix,
@@ -2136,8 +2136,11 @@ class SquareLowRankUpdateMatrix(InvertibleMatrix, ImplicitArrayMatrix):
         if self._capacitance_matrix is None:
             self._capacitance_matrix = DenseSquareMatrix(
                 self.inner_square_matrix.inv.array
-                + self.right_factor_matrix
-                @ (self.square_matrix.inv @ self.left_factor_matrix.array),
+                + self._sign
+                * (
+                    self.right_factor_matrix
+                    @ (self.square_matrix.inv @ self.left_factor_matrix.array)
+                ),
             )
         return self._capacitance_matrix
 
@@ -2248,7 +2251,7 @@ class SymmetricLowRankUpdateMatrix(
             capacitance_matrix: Symmetric matrix  equal to.
 
                     inner_symmetric_matrix.inv
-                    + factor_matrix.T @  symmetric_matrix.inv @ factor_matrix
+                    + sign * factor_matrix.T @ symmetric_matrix.inv @ factor_matrix
 
                 and with shape `(dim_inner, dim_inner)` which is used in constructing
                 inverse and computation of determinant of the low-rank updated matrix,
@@ -2298,8 +2301,11 @@ class SymmetricLowRankUpdateMatrix(
         if self._capacitance_matrix is None:
             self._capacitance_matrix = DenseSymmetricMatrix(
                 self.inner_symmetric_matrix.inv.array
-                + self.factor_matrix.T
-                @ (self.symmetric_matrix.inv @ self.factor_matrix.array),
+                + self._sign
+                * (
+                    self.factor_matrix.T
+                    @ (self.symmetric_matrix.inv @ self.factor_matrix.array)
+                ),
             )
         return self._capacitance_matrix
 
@@ -2375,7 +2381,7 @@ class PositiveDefiniteLowRankUpdateMatrix(
             capacitance_matrix: Positive-definite matrix equal to.
 
                     inner_pos_def_matrix.inv
-                    + factor_matrix.T @ pos_def_matrix.inv @ factor_matrix
+                    + sign * factor_matrix.T @ pos_def_matrix.inv @ factor_matrix
 
                 and with shape `(dim_inner, dim_inner)` which is used in constructing
                 inverse and computation of determinant of the low-rank updated matrix,
@@ -2430,8 +2436,11 @@ class PositiveDefiniteLowRankUpdateMatrix(
         if self._capacitance_matrix is None:
             self._capacitance_matrix = DensePositiveDefiniteMatrix(
                 self.inner_pos_def_matrix.inv.array
-                + self.factor_matrix.T
-                @ (self.pos_def_matrix.inv @ self.factor_matrix.array),
+                + self._sign
+                * (
+                    self.factor_matrix.T
+                    @ (self.pos_def_matrix.inv @ self.factor_matrix.array)
+                ),
             )
         return self._capacitance_matrix
 
